@@ -225,6 +225,12 @@ def features(rec) -> list:
                         out.add("call-dialect-option-shadowed-by-flag-default")
                     if "serialize_by_alias" in dopts and "by_alias_flag" in fl and not ("by_alias" in kws and "by_alias_flag" in top):
                         out.add("call-dialect-option-shadowed-by-flag-default")
+    if any(o[0] == "dialect" for o in call if isinstance(o, list) and o):
+        # a GENERIC dataclass that enabled dialect support and is used specialised (Box[date]): the per-dialect dispatch compiles
+        # CodeBuilder(cls, dialect=...) without the type arguments
+        for t in subs:
+            if t[0] == "dc" and len(t) > 3 and any(o[0] == "generic" for o in t[3]) and any(o[0] == "flags" and "dialect_flag" in o[1] for o in t[3]) and t is not T:
+                out.add("nested-generic-with-dialect-support-called-with-dialect")
     if rec.get("entry") == "codec":
         # a codec compiles its own packer for a mixin class: keyword flags shared by an outer and a nested class are not forwarded
         flagsets = [set(o[1]) & {"omit_none_flag", "by_alias_flag"} for t in subs if t[0] == "dc" and len(t) > 3 for o in t[3] if o[0] == "flags"]
